@@ -30,9 +30,9 @@ def run(c):
     hs = emit(c, 3)
     nexh = len(hs)
     if c.quick:
-        hs += emit(c, 5, simulate=120) + emit(c, 5, certs='"A", "B", "At", "Ca"', simulate=60) + emit(c, 5, certs='"A", "S384", "S512"', simulate=60)
+        hs += emit(c, 5, simulate=120) + emit(c, 5, certs='"A", "B", "At", "Ca"', simulate=60) + emit(c, 5, certs='"A", "S384", "S512"', simulate=60) + emit(c, 5, certs='"Kca", "Kenc", "Kself"', simulate=60)
     else:
-        hs += emit(c, 4) + emit(c, 6, simulate=1500) + emit(c, 6, certs='"A", "B", "At", "Ca"', simulate=1000) + emit(c, 6, certs='"A", "B", "S384", "S512"', simulate=1000)
+        hs += emit(c, 4) + emit(c, 6, simulate=1500) + emit(c, 6, certs='"A", "B", "At", "Ca"', simulate=1000) + emit(c, 6, certs='"A", "B", "S384", "S512"', simulate=1000) + emit(c, 6, certs='"A", "Kca", "Kenc", "Kself"', simulate=1000)
     # other image shapes and RSA key sizes: the same histories' prefixes on more layouts
     extra = []
     for img in (("u3t", "u0n") if c.quick else ("u3t", "u0n", "u1")):
